@@ -17,9 +17,9 @@ def SameCore (s' s : State) : Prop :=
   s'.max = s.max ∧ s'.cur = s.cur ∧ s'.blocks = s.blocks ∧ s'.nextUid = s.nextUid ∧
   s'.nextConn = s.nextConn ∧ s'.nextTask = s.nextTask ∧ s'.tasks = s.tasks ∧
   s'.waiters = s.waiters ∧ s'.holders = s.holders ∧ s'.prunes = s.prunes ∧
-  s'.phantom = s.phantom ∧ s'.home = s.home ∧ s'.live = s.live
+  s'.home = s.home ∧ s'.live = s.live
 
-macro "same" : term => `(⟨rfl, rfl, rfl, rfl, rfl, rfl, rfl, rfl, rfl, rfl, rfl, rfl, rfl⟩)
+macro "same" : term => `(⟨rfl, rfl, rfl, rfl, rfl, rfl, rfl, rfl, rfl, rfl, rfl, rfl⟩)
 
 /-- `f` only touches `quota`, `suppressed`, `failures` -/
 def Inert (f : Block → Block) : Prop :=
